@@ -161,7 +161,8 @@ def run_scenarios(scens):
     for sc in scens:
         jobs.append(dict(sc, mode='step'))
         jobs.append(dict(sc, mode='fast'))
-    res = S.run_isolated(run_scenario, jobs, procs=16)
+    # tiny sessions: several per forked child (every run starts with session.reset_process_state())
+    res = S.run_isolated(run_scenario, jobs, procs=16, chunk=25)
     for x in res:
         if isinstance(x, tuple) and x and x[0] == 'EXC':
             raise Machinery("scenario driver failed: %s" % x[1])
@@ -185,7 +186,10 @@ def se_cfg(K, chunk, tf, n, spacing, invs, constraint=True, gaps=True, innerfix=
 def scenarios_from(r, tag, chunk, tf, K):
     out = []
     for t in tlc.tagged(r, tag):
-        out.append({"hist": json.loads(t[1]), "chunk": chunk, "tf": tf, "K": K})
+        hist = json.loads(t[1])
+        if sum(len(e["raw"]) for e in hist if e["k"] == "feed") < 2:
+            continue                  # research.backtest() itself needs two candles to validate the 1m spacing
+        out.append({"hist": hist, "chunk": chunk, "tf": tf, "K": K})
     return out
 
 
@@ -199,9 +203,10 @@ def bind(ctx, scens, label, stats):
                                             timeout=1500)
     for r in results:
         ctx.coverage["binding_states_checked_by_tlc"] = ctx.coverage.get("binding_states_checked_by_tlc", 0) + r.generated
-    for tid, (agree, v) in sorted(verdicts.items()):
+    for tid, (pre, agree, v) in sorted(verdicts.items()):
         sc, (rn, rf) = scens[tid - 1], res[tid - 1]
         stats['scenarios'] += 1
+        stats['inside_quantifier'] += 1 if pre == "ok" else 0
         stats['real_runs'] += 2
         stats['fills'] += len(rn['fills'])
         if agree == 0:
@@ -209,7 +214,7 @@ def bind(ctx, scens, label, stats):
             if rn['fills'] != rf['fills'] or rn['exc'] != rf['exc']:
                 stats['and_the_code_differs_too'] += 1
         if v != "ok":
-            stats['mismatch_in' if agree == 1 else 'mismatch_out'].append({"label": label, "verdict": v, "scenario": sc,
+            stats['mismatch_in' if pre == "ok" else 'mismatch_out'].append({"label": label, "verdict": v, "scenario": sc,
                                                                              "normal": rn, "fast": rf})
     return res
 
@@ -242,7 +247,9 @@ def model_part(ctx):
             raise Machinery("non-vacuity probe %s is not reachable: Equiv would be vacuous" % p)
     ctx.coverage["antecedent_reachable_with"] = probes
     # R: scenarios generated by TLC, replayed on the real simulators, judged by TLC against the model
-    stats = dict(scenarios=0, real_runs=0, fills=0, model_says_simulators_differ=0, and_the_code_differs_too=0,
+    from . import simruns as R
+    R.warm_parent()
+    stats = dict(scenarios=0, inside_quantifier=0, real_runs=0, fills=0, model_says_simulators_differ=0, and_the_code_differs_too=0,
                  mismatch_in=[], mismatch_out=[])
     exp = [(3, 3, 3, 6), (3, 1, 3, 6)] if ctx.quick else [(3, 3, 3, 6), (3, 1, 3, 6), (4, 1, 3, 6), (4, 1, 1, 4), (3, 3, 3, 9)]
     eres = tlc.run_parallel([dict(module="SimEquiv", cfg_text=se_cfg(K, ch, tf, n, False, ["Export", "NoErr"], constraint=False),
@@ -279,14 +286,15 @@ def model_part(ctx):
     for off in range(0, n_rand, 1500):
         bind(ctx, rs[off:off + 1500], "random-%d" % off, stats)
     ctx.coverage.update({
-        "model_scenarios_replayed_on_code": stats['scenarios'], "model_replay_real_runs": stats['real_runs'],
+        "model_scenarios_replayed_on_code": stats['scenarios'], "of_which_inside_the_quantifier": stats['inside_quantifier'],
+        "model_replay_real_runs": stats['real_runs'],
         "model_replay_fills": stats['fills'], "tlc_exported_scenarios": n_exp,
         "model_says_simulators_differ": stats['model_says_simulators_differ'],
         "of_which_the_code_differs_too": stats['and_the_code_differs_too'],
         "divergences_with_fill_count_antecedent_only": {"found_by_tlc": len(dsc), "reproduced_on_code": n_div_conf},
         "divergences_ragged_length": {"found_by_tlc": len(rsc), "reproduced_on_code": n_rag_conf},
-        "model_binding_mismatches_where_model_says_equal": len(stats['mismatch_in']),
-        "model_binding_mismatches_where_model_says_differ": len(stats['mismatch_out']),
+        "model_binding_mismatches_inside_the_quantifier": len(stats['mismatch_in']),
+        "model_binding_mismatches_outside_the_quantifier": len(stats['mismatch_out']),
         "divergence_sample": dsc[0]["hist"],
     })
     if stats['mismatch_out']:
@@ -294,7 +302,7 @@ def model_part(ctx):
                          "model is out of date there; not a C12 verdict" % (len(stats['mismatch_out']),
                                                                           json.dumps(stats['mismatch_out'][0])[:600]))
     if stats['mismatch_in']:
-        raise Machinery("SimCore.tla no longer describes the code: on %d scenario(s) where the model says both simulators agree, "
+        raise Machinery("SimCore.tla no longer describes the code: on %d scenario(s) INSIDE the antecedent and quantifier of C12, "
                         "TLC rejects what a real simulator did (first: %s). Update the model; C12's verdict on the code is the "
                         "differential trace check." % (len(stats['mismatch_in']), json.dumps(stats['mismatch_in'][0])[:1500]))
     ctx.notes.append("outside the quantifier (exits NOT spaced wider than a trading candle moves) the fast simulator differs from "
